@@ -3,6 +3,7 @@ package main
 import (
 	"fmt"
 	"go/types"
+	"os"
 	"strings"
 	"time"
 
@@ -16,6 +17,7 @@ type Exec struct {
 	solver      *Solver
 	alt         *Solver // cvc5 --solve-bv-as-int for arithmetic kernels (lazy)
 	abs         *Solver // z3 with division abstracted (lazy)
+	cross       *Solver // second opinion (VH_CROSS), lazy
 	work        []*State
 	cfg         Config
 	stats       ExecStats
@@ -188,8 +190,25 @@ func (ex *Exec) checkT(pc []*Term, c *Term, timeoutMs int) SatResult {
 			return r2
 		}
 	}
+	if crossSolver != "" && r != Unknown {
+		// VH_CROSS=z3-old|cvc5: every verdict of the primary solver is asked again from a second solver; a
+		// disagreement makes the item inconclusive (run once per encoding change, see DESIGN.md)
+		if ex.cross == nil {
+			ex.cross = NewSolver(crossSolver, ex.cfg.TimeoutMs, ex.tt)
+		}
+		r2 := ex.cross.Check(pc, c)
+		ex.cross.DonePending()
+		ex.out.CrossChecked++
+		if r2 != Unknown && r2 != r {
+			ex.out.Inconclusive = append(ex.out.Inconclusive, fmt.Sprintf("SOLVER DISAGREEMENT: primary %v, %s %v", r, crossSolver, r2))
+		} else if r2 == Unknown {
+			ex.out.CrossUnknown++
+		}
+	}
 	return r
 }
+
+var crossSolver = os.Getenv("VH_CROSS")
 
 type deadlineHit struct{}
 
